@@ -459,10 +459,10 @@ NOSAN void sim_trace_pc_c(void) {
         char *sp; __asm__ volatile("mov %%rsp, %0" : "=r"(sp));
         char *lo_limit = (char *)cur->stack + 4096;
         if (cur->scrib_low == NULL || sp < cur->scrib_low) cur->scrib_low = sp;          /* going deeper */
-        else if (sp > cur->scrib_low + 256) {                                              /* came back up: what the returned calls used is dead */
+        else if (sp > cur->scrib_low + 512) {                                              /* came back up: what the returned calls used is dead */
             uint64_t pat = 0x0101010101010101ull * (uint64_t)(sim_stack_scribble & 0xff);
             volatile uint64_t *q = (volatile uint64_t *)(((uintptr_t)sp - 16) & ~(uintptr_t)7);   /* this callback is not a leaf: it owns no red zone */
-            char *stop = cur->scrib_low - 8192; if (stop < lo_limit) stop = lo_limit;
+            char *stop = cur->scrib_low - 1024; if (stop < lo_limit) stop = lo_limit;
             while ((char *)(q - 1) > stop) *--q = pat;
             cur->scrib_low = sp;
         }
